@@ -170,6 +170,10 @@ func (inv *Invocation) Deliver(rep Reply) Outcome {
 		inv.stopped = true
 		return Outcome{Failed: true, Kind: "transport", Msg: "connection closed without a response"}
 	}
+	if rep.Cut {
+		inv.stopped = true
+		return Outcome{Failed: true, Kind: "transport", Msg: "connection dropped in the middle of the response body"}
+	}
 	post := map[string]any{}
 	for _, p := range def.Posts {
 		if p.Kind == scengen.PostAssert {
